@@ -24,6 +24,9 @@ def run(fx, rep, tier):
     parse = fx.one("fen::fen_parser::parse")
     width_ok = rule_width(fx, rep)
     extra = fen_classes(fx, width_ok)
+    # the reader's input is arbitrary text: "exactly one king per side" (believed for searched positions) does not hold here
+    extra = [("no-king-invariant-for-text", lambda site, fx: site.family == "panic" and C.in_fn(site, "Bitboard::single"),
+              "Bitboard::single asserts exactly one bit; a FEN may describe zero or several kings", "deny")] + list(extra)
     pC04.run_cone(fx, rep, "C06-CONE", [parse.name], set(), 30, extra_classes=extra,
                   floors={"one_of-match-exhaustive": 4, "digit-parse": 1, "assert-64-by-width": 1, "array-64-by-width": 2})
     rule_tables(fx, rep)
@@ -542,6 +545,8 @@ def rule_tables(fx, rep):
 P = "src/chess/fen/fen_parser.rs"
 W = "src/chess/fen/fen_writer.rs"
 MUTANTS = [
+    {"name": "reader assumes exactly one king per side (seed C06-2)", "expect": "C06-CONE",
+     "edits": [("src/chess/fen/fen_parser.rs", "    let plies = plies_from_fullmove_number(fullmove_number, player);\n", "    let plies = plies_from_fullmove_number(fullmove_number, player);\n    let castle_rights = if board.king(Player::White).single() == crate::chess::square::squares::king_start(Player::White) { castle_rights } else { castle_rights };\n")]},
     {"name": "width check removed (original defect)", "expect": "C06-",
      "edits": [(P, "    if squares.len() != File::N {\n        return Err(nom::Err::Error(nom::error::Error::new(\n            input,\n            nom::error::ErrorKind::Verify,\n        )));\n    }\n", "")]},
     {"name": "width check accepts short ranks", "expect": "C06-WIDTH",
